@@ -54,6 +54,7 @@ type bObs struct {
 	ActionOK      bool   `json:"action_ok"`
 	FieldCount    int    `json:"field_count"`
 	FieldOK       bool   `json:"field_ok"`
+	RepeatOK      bool   `json:"repeat_ok"`
 	ScriptSubmits bool   `json:"script_submits"`
 	SkeletonOK    bool   `json:"skeleton_ok"`
 	Note          string `json:"note"`
@@ -376,7 +377,7 @@ func (o *bObs) suspicious(in *bInput) bool {
 	if in.Binding == "redirect" {
 		return !(o.Built && o.EndpointOK && o.ParamsOK && o.RequestOK && (!o.RelayPresent || o.RelayOK))
 	}
-	return !(o.Built && o.Forms == 1 && o.ActionOK && o.FieldCount == 1 && o.FieldOK && (!o.RelayPresent || o.RelayOK) && o.ScriptSubmits && o.SkeletonOK)
+	return !(o.Built && o.Forms == 1 && o.ActionOK && o.FieldCount == 1 && o.FieldOK && (!o.RelayPresent || o.RelayOK) && o.ScriptSubmits && o.SkeletonOK && o.RepeatOK)
 }
 
 func (Bindings) Run(c *orch.Case) *orch.Outcome {
@@ -520,6 +521,16 @@ func bindingsOne(inp *bInput, relay string) (*bObs, map[string]any) {
 		}
 		twin, _ := post(benign)
 		analysePost(&in, sp, body, relay, docBytes, twin, o)
+		// the identical call on the same document gives the identical page, and the document is what it was
+		// (BuildAuthBodyPost builds a fresh request, with a fresh ID, on every call: nothing to compare there)
+		o.RepeatOK = true
+		if doc != nil {
+			again, err2 := post(relay)
+			o.RepeatOK = err2 == nil && bytes.Equal(again, body)
+			if after, _ := doc.WriteToString(); after != string(docBytes) {
+				o.RepeatOK = false
+			}
+		}
 	}()
 	return o, replay
 }
